@@ -317,6 +317,8 @@ def parse_string(data: dict, config: Config, unparsed_keys: Set[str], path: Json
         regex = None
     format = _read_string(data, 'format', unparsed_keys, path, None)
     root = NoOpDecision()
+    if min_length > max_length:
+        raise JsonSchemaException(f"minLength {min_length} > maxLength {max_length} at {path}", path)
     if format is None or format == "byte":
         properties = StringProperties(
             min_length=min_length,
